@@ -59,8 +59,10 @@ type c15El struct {
 	yaml string
 }
 
-var c15Ints = []int64{0, 1, -1, 2, 3, 10, 16, 255, -5, 100, 1000, 1 << 31, -(1 << 31), 1 << 53, 1<<53 + 1, math.MaxInt64, math.MinInt64, math.MaxInt64 - 1, math.MinInt64 + 1, 1 << 62, -(1 << 62)}
-var c15Floats = []float64{0.5, 1.0, 1.5, -2.25, 3.0, 1e3, 1e-3, 10.0, 16.0, 1e21, -1e21, 255.0, 2.5e10, 9.2e18, -9.3e18}
+var c15Ints = []int64{0, 1, -1, 2, 3, 10, 16, 255, -5, 100, 1000, 1 << 31, -(1 << 31), 1 << 53, 1<<53 + 1, math.MaxInt64, math.MinInt64, math.MaxInt64 - 1, math.MinInt64 + 1, 1 << 62, -(1 << 62), 1<<52 + 1, 1<<52 + 2}
+var c15Floats = []float64{0.5, 1.0, 1.5, -2.25, 3.0, 1e3, 1e-3, 10.0, 16.0, 1e21, -1e21, 255.0, 2.5e10, 9.2e18, -9.3e18,
+	// neighbours: distinct numbers a relative 1e-13 .. 1e-16 apart (an order with a tolerance is not an order)
+	1.0000000000001, 0.9999999999999, 1.5000000000000002, 255.00000000000003, 4503599627370497.5, 1.0000000000001e21, 1e-3 + 1e-17}
 var c15Strs = []string{"", "a", "b", "B", "ab", "abc", "10", "9", "1", "2", "1.5", "-1", "0x10", "true", "null", "zed", "é", "Z", "a b", " ", "~", "10a", "1e3", "日本",
 	// date-like strings the pinned tree does not read as instants (one-digit fields, a blank before the time): plain strings everywhere
 	"2021-1-10", "2021-1-9", "2021-01-9", "2021-3-04 9:30:00", "2021-3-04 10:00:00",
